@@ -324,6 +324,17 @@ Proof.
   eapply CInv_P; eauto.
 Qed.
 
+(* every table of every client after every history is filed under its own name *)
+Theorem names_reachable ops cn tn c t :
+  run_env [] ops ->
+  lookup cn (fst (run lang_match lang_update flavour [] ops)) = Some c ->
+  lookup tn (c_tables c) = Some t -> t_name t = tn.
+Proof.
+  intros He Lc Lt. assert (WInv (fst (run lang_match lang_update flavour [] ops))) as H.
+  { apply WInv_run; auto. intros n c0 L. discriminate. }
+  destruct (H cn c Lc) as [_ Hc]. now apply Hc in Lt as [_ N].
+Qed.
+
 End Generic.
 
 (* ---------------- instance: TInv, no side condition ---------------- *)
@@ -359,3 +370,19 @@ Proof.
 Qed.
 
 End TInvInstance.
+
+(* ---------------- instance: no table predicate at all, just the names ---------------- *)
+Section NamesInstance.
+Variable lang_match : str -> item -> item -> fmap str -> outcome bool.
+Variable lang_update : str -> item -> item -> fmap str -> outcome item.
+Variable flavour : sdk.
+
+Theorem table_names_reachable ops cn tn c t :
+  lookup cn (fst (run lang_match lang_update flavour [] ops)) = Some c ->
+  lookup tn (c_tables c) = Some t -> t_name t = tn.
+Proof.
+  apply (names_reachable (fun _ => True) (fun _ _ _ _ _ _ => True) lang_match lang_update flavour); try (intros; exact I).
+  apply run_env_True.
+Qed.
+
+End NamesInstance.
